@@ -20,7 +20,7 @@ RULE = ("harness-generated template datasets (rank 1-3, extents 1-6, coordinate 
         "grid_mapping) x variables of f8/f4/i8/i4/i2 with and without _FillValue and random masks x every DataType x MissingValue "
         "combination; write cases with 1-4 results (float64/float32/int64/int32, nomask / all-false / random masks) written together; "
         "distinct by (case kind, rank, stored type, DataType, MissingValue class, has-fill, n results, mask classes)")
-REQUIRED_COUNTERS = ["reruns_after_a_repaired_dataset", "netcdf_extra_cases", "plain_rereads_of_the_same_variable", "tool_runs_through_a_linked_command_file", "large_grids_written", "reads_compared", "type_check_cases", "writes_read_back", "template_copies_compared", "union_mask_checks", "writes_over_an_older_dataset", "other_type_name_spellings", "written_results_made_by_commands"]
+REQUIRED_COUNTERS = ["non_ascii_names_in_command_files", "reruns_after_a_repaired_dataset", "netcdf_extra_cases", "plain_rereads_of_the_same_variable", "tool_runs_through_a_linked_command_file", "large_grids_written", "reads_compared", "type_check_cases", "writes_read_back", "template_copies_compared", "union_mask_checks", "writes_over_an_older_dataset", "other_type_name_spellings", "written_results_made_by_commands"]
 ASSUMPTIONS = ["don't-care: real data equal to the fill value, result names clashing with dimension names, compression settings, plain ndarray results",
                "Fuzzy: data within [-1,1] must come back unchanged, data beyond +-1.5 must be rejected, whatever is returned lies in [-1,1]; the width "
                "of the tolerance band in between is not documented and not judged", "the parameter is called MissingValue in the code (MissingVal in the docs)"]
@@ -221,6 +221,32 @@ def run_extras(ctx, case):
         if r.value.shape != (ny, nx) or not numpy.allclose(numpy.ma.getdata(r.value), want_packed, rtol=0, atol=1e-9) or numpy.ma.getmaskarray(r.value).any():
             ctx.fail("read:packed-variable:value", {"got": numpy.ma.getdata(r.value).reshape(-1)[:4].tolist(), "want": want_packed.reshape(-1)[:4].tolist(), "scale_factor": float(pk.scale_factor) if False else None})
             return
+    # (b1) a command file naming a variable and files with non-ASCII characters in quoted strings; the producer carries metadata
+    # entries named like attributes the NetCDF library interprets - what is written is the result, and it reads back as written
+    from mpilot.program import Program as _P1
+    uname = ["temp\u00e9rature", "h\u00f6he", "\u6e29\u5ea6"][case["rseed"] % 3]
+    with Dataset(os.path.join(d, "t.nc"), "a") as ds:
+        uv = ds.createVariable(uname, "f8", ("y", "x"))
+        uvals = numpy.arange(ny * nx, dtype="f8").reshape(ny, nx) - 2.5
+        uv[:] = uvals
+    meta = ["valid_min: 0, valid_max: 1", "scale_factor: 2, add_offset: 5", "missing_value: -0.5", "valid_min: 0"][case["rseed"] // 3 % 4]
+    text1 = ('A = EEMSRead(InFileName = "t.nc", InFieldName = "%s", Metadata = [%s, DisplayName: "x"])\n'
+             'Out = EEMSWrite(OutFileName = "r\u00e9sultat.nc", OutFieldNames = [A], DimensionFileName = "t.nc", DimensionFieldName = "%s")\n') % (uname, meta, uname)
+    ctx.count("non_ascii_names_in_command_files")
+    try:
+        _P1.from_source(text1, libraries=arr.NC_LIBS, working_dir=d).run()
+    except Exception as e:
+        ctx.fail("roundtrip:command-file-with-non-ascii-names:raises-%s" % type(e).__name__, {"error": str(e)[:200], "variable": uname})
+        return
+    outp = os.path.join(d, "r\u00e9sultat.nc")
+    if not os.path.exists(outp):
+        ctx.fail("roundtrip:command-file-with-non-ascii-names:output-file-not-where-it-was-named", {"files": sorted(os.listdir(d))[:8]})
+        return
+    with Dataset(outp) as ds:
+        back = ds.variables["A"][:]
+    if numpy.ma.getmaskarray(back).any() or not numpy.array_equal(numpy.ma.getdata(back), uvals):
+        ctx.fail("roundtrip:metadata-named-like-netcdf-attributes-changes-what-is-read-back", {"metadata": meta, "missing_cells": int(numpy.ma.getmaskarray(back).sum()), "first": numpy.ma.getdata(back).reshape(-1)[:3].tolist(), "want_first": uvals.reshape(-1)[:3].tolist()})
+        return
     # (b2) a read that is refused by the library's check, the dataset repaired, the very same program run again
     from mpilot.program import Program
     text2 = 'A = EEMSRead(InFileName = "fix.nc", InFieldName = v, DataType = "Positive Float")\nB = Sum(InFieldNames = [A, A])\nOut = EEMSWrite(OutFileName = "fixed_out.nc", OutFieldNames = [B], DimensionFileName = "fix.nc", DimensionFieldName = v)'
